@@ -193,8 +193,6 @@ func (d *PathDecoder) decodeReferenceTargetsForBody(body hcl.Body, parentBlock *
 			}
 
 			bodyRef.Type = bodyToDataType(bSchema.Type, bSchema.Body)
-
-			refs = append(refs, bodyRef)
 		}
 
 		if bSchema.Address.DependentBodyAsData {
@@ -236,6 +234,12 @@ func (d *PathDecoder) decodeReferenceTargetsForBody(body hcl.Body, parentBlock *
 					refs = append(refs, bodyRef)
 				}
 			}
+		}
+
+		if bSchema.Address.BodyAsData {
+			// appended only now, so that the dependent body (if any)
+			// is reflected in the type and nested targets
+			refs = append(refs, bodyRef)
 		}
 
 		if bSchema.Address.SupportUnknownNestedRefs {
